@@ -1,4 +1,4 @@
-import DcmVerif.Props.Source
+import DcmVerif.Props.SourceMeta
 import DcmVerif.Proofs.Chains
 import DcmVerif.Proofs.Produced
 import DcmVerif.Proofs.Ext
